@@ -174,6 +174,48 @@ theorem value_positions_docker_run (image name platform : Word) (cfg : Container
   rw [hp]
   cases hE : cfg.entrypoint <;> cases hC : cfg.command <;> simp [runOpts, startContainerCommand, cmdOf, wTrue, hE, hC]
 
+/-- the value of the `--mount` option for one configured `(source, target)` pair: both texts verbatim -/
+def mountValue (m : Word × Word) : Word := w!"type=bind,source=" ++ m.1 ++ w!",target=" ++ m.2
+
+private theorem valuesOf_append (a b : List (Word × Word)) (n : Word) : valuesOf (a ++ b) n = valuesOf a n ++ valuesOf b n := by
+  simp [valuesOf, List.filter_append]
+
+private theorem valuesOf_map_other {α : Type} (k n : Word) (f : α → Word) (l : List α) (h : (k == n) = false) :
+    valuesOf (l.map (fun x => (k, f x))) n = [] := by
+  induction l with
+  | nil => rfl
+  | cons x r ih => simpa [valuesOf, h] using ih
+
+private theorem valuesOf_map_same {α : Type} (n : Word) (f : α → Word) (l : List α) :
+    valuesOf (l.map (fun x => (n, f x))) n = l.map f := by
+  induction l with
+  | nil => rfl
+  | cons x r ih => simpa [valuesOf] using ih
+
+/-- **Bind mounts: exactly the configured pairs, texts verbatim, whatever they name.** For every container configuration
+whose bind-mount sources are pairwise different paths (different as `PathBuf`s, i.e. component-wise — two calls with the
+*same* path overwrite, which is what the configuration's `HashMap<PathBuf, PathBuf>` holds) the values of the `--mount`
+options docker reads from `start_container`'s command line are a permutation of `type=bind,source=<source>,target=<target>`
+over the configured `(source, target)` pairs: one option per configured pair, none missing, none merged, the source text as
+it was configured. There is no file system in the statement: a source is an opaque text, so two *different* texts that
+name one location on the host (a symlink and its target, `dir/../x` and `x`) stay two mounts, and a text is never
+replaced by another spelling of the location it names. No hypothesis on the characters of sources or targets. -/
+theorem bind_mounts_exactly_configured (image name platform : Word) (cfg : ContainerConfig) (himg : image.head? ≠ some 45)
+    (hd : cfg.bindMounts.Pairwise (fun a b => Apart pathLt a.1 b.1)) :
+    ∃ rest raw, dockerRunArgv (startContainerCommand image name platform cfg) = w!"run" :: rest
+      ∧ parseArgs Spec.Docker.runFlags false rest = some raw
+      ∧ (valuesOf raw.opts w!"mount").Perm (cfg.bindMounts.map mountValue) := by
+  obtain ⟨rest, e, hp⟩ := value_positions_docker_run image name platform cfg himg
+  refine ⟨rest, _, e, hp, ?_⟩
+  have hperm := (configured_entries_exactly_once pathLt cfg.bindMounts hd).map mountValue
+  have hE : valuesOf (match cfg.entrypoint with | some e => [(w!"entrypoint", e)] | none => []) w!"mount" = [] := by
+    cases cfg.entrypoint <;> rfl
+  have h3 : valuesOf [(w!"name", name), (w!"detach", w!"true"), (w!"platform", platform)] w!"mount" = [] := by rfl
+  simp only [valuesOf_append, hE, h3, valuesOf_map_other _ _ _ _ (by decide : (w!"env" == w!"mount") = false),
+    valuesOf_map_other _ _ _ _ (by decide : (w!"publish" == w!"mount") = false), List.nil_append]
+  rw [valuesOf_map_same]
+  exact hperm
+
 /-- **M3 (`pack build`).** The same for pack, with no hypothesis on builder, path, buildpack references or env. -/
 theorem value_positions_pack_build (image : Word) (cfg : BuildConfig) (appPath : Word) (himg : image.head? ≠ some 45) :
     ∃ rest, packBuildArgv (packBuildCommand (resourcesFor image) cfg appPath) = w!"build" :: rest ∧
@@ -335,6 +377,18 @@ example : sampleCfg.env.Pairwise (fun a b => Apart bytesLt a.1 b.1) ∧ sampleCf
 example : Spec.Docker.parseDockerRun (dockerRunArgv (startContainerCommand w!"img" w!"ctr" w!"linux/amd64" sampleCfg))
     = some (expectedRun w!"img" w!"ctr" w!"linux/amd64" sampleCfg) :=
   docker_run_roundtrip_partial _ _ _ sampleCfg (by decide) sampleCfg_ok.1 sampleCfg_ok.2
+
+/-- the seeded-change shape: a symlink and the directory it points at, mounted at two targets — different texts, hence apart as
+paths; both reach docker, each with its own text (and `/data/releases/v2/` would be the *same* path as `/data/releases/v2`) -/
+example : [(w!"/data/current", w!"/srv/current"), (w!"/data/releases/v2", w!"/srv/pinned")].Pairwise (fun a b => Apart pathLt a.1 b.1) := by
+  simp [Apart]; decide
+
+example : (startContainerCommand w!"img" w!"ctr" w!"linux/amd64"
+      { entrypoint := none, command := none, env := [], exposedPorts := [],
+        bindMounts := [(w!"/data/releases/v2", w!"/srv/pinned"), (w!"/data/current", w!"/srv/current")] }).bindMounts
+    = [(w!"/data/current", w!"/srv/current"), (w!"/data/releases/v2", w!"/srv/pinned")] := by decide
+
+example : ¬ Apart pathLt w!"/data/releases/v2/" w!"/data//releases/./v2" := by simp [Apart]; decide
 
 def sampleBuild : BuildConfig :=
   { appDir := w!"fixtures/app", builder := w!"--builder=x", buildpacks := [w!"heroku/a b", w!"--evil", w!"-b=c"],
